@@ -25,6 +25,13 @@ def gen_case(rng, exact):
     seed_assets = rng.sample(ASSETS, rng.randint(0, 4))
     c['seed'] = [[a, rng.choice([rng.randint(1, 300), -rng.randint(1, 300)]) if kind == 'long_short' or rng.random() < 0.7
                   else -rng.randint(1, 50)] for a in seed_assets]
+    if c['seed'] and rng.random() < 0.12:
+        # holdings that are not whole numbers of units (fractional orders sent straight to the broker): outside the model
+        # (integral quantities), judged by the predicate alone
+        c['seed'] = [[a, (rng.choice([0.5, -0.5, 0.25, 0.75, -0.25]) if rng.random() < 0.6 else q + rng.choice([0.5, -0.5, 0.25]))]
+                     for a, q in c['seed']]
+        c['fractional'] = True
+        c['stream'] += ':fractional-holdings'
     c['t_seed'] = MON + 52200
     c['extra_portfolios'] = rng.choice([0, 0, 1, 2])      # idle sub-portfolios in the same account
     c['seed_prices'] = [[a, price[a]] for a in ASSETS]
@@ -89,7 +96,7 @@ class C09(Prop):
 
     def model_case2(self, c, impl):
         ins = []
-        if impl[0] == 'ok':
+        if impl[0] == 'ok' and not c.get('fractional'):
             for r, o in zip(c['rounds'], impl[1]):
                 ins.append([c['kind'], Fraction(c['param']), Fraction(o['equity']), bl.fee_val(c['fee']),
                             [[a, [Fraction(p)]] for a, p in r['close']],
@@ -105,7 +112,15 @@ class C09(Prop):
         sig = []
         for k, (r, o) in enumerate(zip(c['rounds'], impl[1])):
             w = 'rebalance %d' % k
-            m = mod[k]
+            frac = bool(c.get('fractional'))
+            if frac:
+                if 'err' in o:
+                    return j
+                m = ['ok', [o['alloc'], [], []]]
+                if k == 0:
+                    j.tags.append('model_skipped')
+            else:
+                m = mod[k]
             if 'err' in o:
                 if m[0] != 'err' or m[1] != o['err']:
                     j.disagreements.append('%s: model=%s impl=%s' % (w, m[:3], o['err']))
@@ -125,7 +140,9 @@ class C09(Prop):
                 for (a, x), (_, y) in zip(malloc, o['alloc']):
                     if not close(x, y, Fraction(1, 10**12)):
                         j.disagreements.append('%s: allocation of %s model=%s impl=%s' % (w, a, float(x), y))
-            if not kn:
+            if frac:
+                pass
+            elif not kn:
                 if [[a, q] for a, q in morders] != [[a, int(q)] for a, q in o['orders']]:
                     j.disagreements.append('%s: orders model=%s impl=%s' % (w, morders, o['orders']))
             else:
@@ -152,7 +169,7 @@ class C09(Prop):
                 j.failures.append('%s: orders not in ascending asset order / duplicated: %s' % (w, names))
             after = dict((a, Fraction(q)) for a, q in o['after'])
             tnz = dict((a, q) for a, q in target.items() if q != 0)
-            if after != tnz:
+            if after != tnz and not frac:       # (a fill of less than one unit is ignored by Position: quantities are documented as whole numbers)
                 j.failures.append('%s: holdings after the fills %s differ from the target %s' % (w, o['after'], [[a, float(q)] for a, q in sorted(tnz.items())]))
             for a in held:
                 if a not in aw and target.get(a, 0) != 0:
